@@ -31,13 +31,19 @@ PREFIXES = ("C15/", "crash/")
 
 EXTRA_WRAPS = ["pthread_mutex_lock", "pthread_mutex_unlock", "active_fd_get", "active_fd_put",
                "ctx_store_get_ctx", "ctx_store_put", "SSL_CTX_new", "SSL_CTX_free", "SSL_new", "SSL_free",
-               "xcm_tp_socket_create"]
+               "xcm_tp_socket_create",
+               # scheduling points at the OpenSSL entry points of library initialisation / TLS socket creation
+               "OPENSSL_init_ssl", "BIO_get_new_index", "BIO_meth_new", "BIO_meth_set_write", "BIO_meth_set_read",
+               "BIO_meth_set_ctrl", "BIO_meth_set_create", "BIO_meth_set_destroy", "BIO_new", "SSL_set_bio"]
 
 ASSUME = [
     "schedules are enumerated up to the stated number of PREEMPTIONS (switching away from a runnable thread); switches "
     "forced by a finished or lock-blocked thread are free; code between two scheduling points runs atomically",
     "scheduling points: before every pthread_mutex_lock in the link and at every shim system call inside an XCM call "
-    "(pts=all); in the scenarios marked pts=dep only at calls that allocate/release descriptor numbers or touch objects "
+    "(pts=all), and at the OpenSSL entry points the library calls for initialisation and TLS socket creation "
+    "(OPENSSL_init_ssl, BIO_get_new_index, BIO_meth_new, BIO_meth_set_*, BIO_new; SSL_set_bio under pts=all) - no TLS "
+    "socket exists before the threads start, so they create the process's first TLS sockets concurrently; "
+    "in the scenarios marked pts=dep only at calls that allocate/release descriptor numbers or touch objects "
     "another thread can reach (socket, accept, eventfd, epoll_create1, timerfd_create, fopen, close, epoll_ctl, bind, listen, "
     "connect) - send/recv/sockopt calls on a thread's own connection are independent of all actions of other threads",
     "the cooperative scheduler is sequentially consistent and its hand-offs are happens-before edges: weak-memory effects and "
